@@ -358,3 +358,138 @@ def parse(ans):
         v = d.get(k, "?")
         d[k + "_n"] = None if v == "-" else (int(v.split()[0]) if v.split() and v.split()[0].isdigit() else -1)
     return d
+
+
+# ------------------------------------------------------------------------------------------------
+# judgement (called by the owning check; every verdict comes from the Lean answers)
+
+
+def features(line):
+    """which branches of the builder a request exercises (evidence counters only)"""
+    t = dict(x.split("=", 1) for x in line.split(" ")[1:] if "=" in x)
+    f = []
+    if t.get("cmd") == "D":
+        f.append("dma_lut" if t.get("dstlut") == "1" else "dma_weights" if "wsrc" in t else "dma_feature_map")
+        return f
+    real = t["real"].split("|")
+    kind = {"0": "conv", "1": "depthwise", "2": "pool", "3": "elementwise"}[real[1]]
+    f.append("kind_" + kind)
+    st = t["st"].split(",")
+    if kind == "elementwise" and "opa" in t:
+        f.append("ew_binary")
+        if st[4] != "0":
+            f.append("ew_reversed_by_scheduler")
+        elif real[16] != "0":
+            f.append("ew_swapped_by_builder")
+        if real[5] != "-":
+            f.append("ew_scalar_ifm2")
+        a, b = t["opa"].split(","), t["opb"].split(",")
+        if a[6] != b[6] or a[7] != b[7]:
+            f.append("ew_operands_differ_in_quantisation")
+            if real[16] != "0":
+                f.append("ew_reversed_and_operands_differ_in_quantisation")
+    if t.get("w", "n") != "n":
+        w = t["w"].split("/")
+        f.append("weights_buffered" if w[2] == "1" else "weights_direct")
+        if len(t["real"].split("|")[9].split("+")) > 1:
+            f.append("weights_two_cores")
+    if t.get("sc", "n") != "n":
+        f.append("standalone_scale_tensor")
+    if t.get("clamp", "n") != "n":
+        f.append("clamp_judged")
+    if t.get("act", "n") != "n":
+        f.append("act_" + t["act"].split("/")[0])
+    op = t["op"].split(",")
+    if op[12] == "TILE":
+        f.append("tile_padding")
+    if not (st[0] != "0" and st[1] != "0"):
+        f.append("h_stripe")
+    if t.get("mult", "n") not in ("n", "1,1,1"):
+        f.append("ofm_stride_multiplier")
+    if t["ofm"].split("/")[-1].startswith("Transpose@"):
+        f.append("ofm_transposed")
+    if t.get("expl", "n") != "n":
+        f.append("explicit_scaling")
+    if t.get("foq", "n") != "n" or t.get("fiq", "n") != "n":
+        f.append("forced_quantisation")
+    rx = t["rx"].split("/")
+    if t.get("act", "n") != "n":
+        am = t["act"].split("/")
+        if (am[1] != "n" and rx[3] != "n" and am[1].split(":")[0] != rx[3].split(":")[0]) or \
+           (am[2] != "n" and rx[4] != "n" and am[2].split(":")[0] != rx[4].split(":")[0]):
+            f.append("clamp_bounds_rewritten")
+    return f
+
+
+def judge(ck, outs, tag="hl2npu"):
+    """Judge the `hl` records of compiled networks.  Returns a dict of totals for the evidence."""
+    import common
+
+    lines, own = [], []
+    n_skip = 0
+    for o in outs:
+        for si, e in enumerate(o.get("extra") or []):
+            for line, skip, i in e.get("hl") or []:
+                if line is None:
+                    n_skip += 1
+                    ck.count(tag + "_skip_" + (skip.split(":")[0] if skip else "?"))
+                    if skip and skip.startswith("harness:"):
+                        ck.notes.append(f"{tag}: descriptor of operation {i} of network {o['idx']} ({o['profile']}) could not be written: {skip[-300:]}")
+                else:
+                    lines.append(line)
+                    own.append((o, si, i))
+    if n_skip > max(5, len(lines) // 20):
+        raise common.InfraError(f"{tag}: {n_skip} of {n_skip + len(lines)} commands could not be described (see notes)")
+    answers = [parse(a) for a in ck.model(lines)] if lines else []
+    spec_bad, model_bad, unparsed = [], [], []
+    judged = {"roles": 0, "weights": 0, "dma": 0, "clamp": 0}
+    for (o, si, i), line, d in zip(own, lines, answers):
+        ck.count(tag + "_ops")
+        for ft in features(line):
+            ck.count(tag + "_" + ft)
+        if "model" not in d:
+            unparsed.append((o, si, i, line, d))
+            continue
+        for k in judged:
+            if d[k + "_n"] is not None:
+                judged[k] += 1
+        rej = [k for k in judged if d[k + "_n"] not in (None, 0)]
+        if rej:
+            spec_bad.append((o, si, i, line, d, rej))
+        if not d["model_eq"]:
+            model_bad.append((o, si, i, line, d))
+            ck.count(tag + "_model_" + d["model"].split(":")[0] + ("_" + d["model"].split(":")[1] if d["model"].startswith("err") else ""))
+    if unparsed:
+        o, si, i, line, d = unparsed[0]
+        raise common.InfraError(f"{tag}: the Lean handler did not understand {len(unparsed)} requests, first: {d['raw'][:100]} :: {line[:400]}")
+
+    def rp(o, si, i, line, d):
+        return {"profile": o["profile"], "seed": o["seed"], "index": o["idx"], "opts": o.get("opts"), "network": o.get("desc"),
+                "stream": si, "operation": i, "request": line[:20000], "verdict": d["raw"][:1500],
+                "how_to_replay": "./check C06 --replay <this file> recompiles (seed, index, profile); or pipe `request` into lean/.lake/build/bin/drv"}
+
+    what = {"roles": "operand roles of a binary elementwise operation are inconsistent (feature map, quantisation, scalar flag, reverse bit)",
+            "weights": "weight / scale ranges of the operation are not the encoded sections of its depth slice",
+            "dma": "DMA does not cover the sections it buffers / wrong destination",
+            "clamp": "activation clamp is not the quantised RELU range of the OFM tensor"}
+    seen = set()
+    for o, si, i, line, d, rej in spec_bad:
+        for k in rej:
+            key = (k, d[k].split(" ", 1)[-1].split(":")[0])
+            if key in seen and len(seen) >= 6:
+                continue
+            seen.add(key)
+            if sum(1 for v in ck.violations if v[2]) < 8:
+                ck.violation(f"NpuOperation built from the scheduled operation breaks the Spec: {what[k]}: {d[k][:260]} "
+                             f"(network {o['idx']} {o['profile']} {o.get('opts')}, stream {si}, operation {i})", rp(o, si, i, line, d),
+                             found_input=True)
+    if model_bad and not any(v[2] for v in ck.violations):
+        o, si, i, line, d = model_bad[0]
+        ck.violation(f"correspondence Model/NpuOpBuild.lean vs high_level_command_to_npu_op broken on {len(model_bad)} operations: "
+                     f"{d['model'][:300]} (network {o['idx']} {o['profile']} {o.get('opts')}, stream {si}, operation {i})",
+                     dict(rp(o, si, i, line, d), correspondence="hl2npu model operation"), found_input=False)
+    for (o, si, i), line, d in list(zip(own, lines, answers))[:2]:
+        ck.sample({"request": line[:400], "verdict": d["raw"][:200]})
+    return {"hl2npu_operations": len(lines), "hl2npu_model_disagreements": len(model_bad), "hl2npu_spec_rejections": len(spec_bad),
+            "hl2npu_judged_roles": judged["roles"], "hl2npu_judged_weights": judged["weights"], "hl2npu_judged_dma": judged["dma"],
+            "hl2npu_judged_clamp": judged["clamp"], "hl2npu_skipped": n_skip}
